@@ -47,6 +47,7 @@ pub fn run(obligation: &str) -> i32 {
     if obligation.starts_with("C04.") { c04_bounds(&mut rep); return rep.finish("C04_bounds"); }
     if obligation.starts_with("C07.") { c07_octets_to_bits(&mut rep); return rep.finish("C07_octets_to_bits"); }
     if obligation.starts_with("C14.") { c14_numbering(&mut rep); return rep.finish("C14_numbering"); }
+    if obligation.starts_with("C06.max_restrictive") || obligation.starts_with("C06.int_type.") || obligation.starts_with("C06.lemma.") { c06_serial(&mut rep); return rep.finish("C06.int_type"); }
     if obligation.starts_with("C06.int_type_token") { c06_int_type_token(&mut rep); return rep.finish("C06.int_type_token"); }
     if obligation.starts_with("C06.") { c06_integer_constraints(&mut rep); return rep.finish("C06.integer_constraints"); }
     println!("REPLAY-NOTE no native replay registered for {obligation}");
@@ -637,4 +638,47 @@ fn c03_apply_tagenv(rep: &mut Rep) {
     let mut v2 = v.clone();
     hook_apply_tagenv_tld(&mut v2, &TaggingEnvironment::Explicit);
     rep.check("C03.tld_apply.values_classes_objects_untouched", v2 == v, || format!("{v2:?}"));
+}
+
+// ---------------------------------------------------------------------------------------------- C06 (max_restrictive, Integer::int_type)
+fn c06_rank(t: IntegerType) -> u8 {
+    match t { IntegerType::Uint8 => 0, IntegerType::Int8 => 1, IntegerType::Uint16 => 2, IntegerType::Int16 => 3, IntegerType::Uint32 => 4,
+              IntegerType::Int32 => 5, IntegerType::Uint64 => 6, IntegerType::Int64 => 7, IntegerType::Unbounded => 8 }
+}
+fn c06_serial(rep: &mut Rep) {
+    let all = [IntegerType::Uint8, IntegerType::Int8, IntegerType::Uint16, IntegerType::Int16, IntegerType::Uint32, IntegerType::Int32, IntegerType::Uint64, IntegerType::Int64, IntegerType::Unbounded];
+    for a in all { for b in all {
+        let r = a.max_restrictive(b);
+        let want = if c06_rank(a) <= c06_rank(b) { a } else { b };
+        let d = || format!("{a:?}.max_restrictive({b:?}) -> {r:?}");
+        rep.check("C06.max_restrictive.is_the_operand_earlier_in_the_documented_order", r == want, d);
+        rep.check("C06.max_restrictive.is_one_of_the_operands", r == a || r == b, d);
+        rep.check("C06.max_restrictive.unbounded_only_from_two_unbounded", (r == IntegerType::Unbounded) == (a == IntegerType::Unbounded && b == IntegerType::Unbounded), d);
+        rep.check("C06.max_restrictive.safety", true, d);
+    } }
+    // serial constraints: 0..=3 ranges with ends from a reduced boundary set, each with / without extension marker
+    let pts: [i128; 12] = [i128::MIN, -(1 << 63) - 1, -(1 << 31), -129, -128, 0, 127, 255, 256, 65535, (1 << 32) - 1, 1 << 64];
+    let mut ranges: Vec<(i128, i128, bool)> = vec![];
+    for (i, lo) in pts.iter().enumerate() { for hi in &pts[i..] { for x in [false, true] { ranges.push((*lo, *hi, x)); } } }
+    let mk = |r: &(i128, i128, bool)| Constraint::Subtype(ElementSetSpecs { extensible: false,
+        set: ElementOrSetOperation::Element(SubtypeElements::ValueRange { min: Some(ASN1Value::Integer(r.0)), max: Some(ASN1Value::Integer(r.1)), extensible: r.2 }) });
+    let mut lcg = Lcg(0xC06);
+    for n in 0..60000usize {
+        let k = n % 4;
+        let rs: Vec<(i128, i128, bool)> = (0..k).map(|_| ranges[lcg.next(ranges.len())]).collect();
+        let int = Integer { constraints: rs.iter().map(mk).collect(), distinguished_values: None };
+        let got = int.int_type();
+        let want = rs.iter().fold(IntegerType::Unbounded, |acc, r| { let w = spec_width(r.0, r.1, r.2); if c06_rank(w) <= c06_rank(acc) { w } else { acc } });
+        let d = || format!("serial constraints {rs:?} -> {got:?}, most restrictive width {want:?}");
+        rep.check("C06.int_type.most_restrictive_width_of_the_serial_constraints", got == want, d);
+        rep.check("C06.int_type.fold_so_far_is_the_most_restrictive_width", got == want, d);
+        rep.check("C06.int_type.safety", true, d);
+        // every value permitted by all constraints fits the selected type
+        for v in pts {
+            if rs.iter().all(|r| r.2 || (r.0 <= v && v <= r.1)) {
+                rep.check("C06.lemma.serial_width_holds_every_value_permitted_by_all_constraints", fits(got, v, v), || format!("serial constraints {rs:?} -> {got:?} cannot hold the permitted value {v}"));
+            }
+        }
+        rep.check("C06.lemma.fixed_width_only_from_a_finite_non_extensible_constraint", got == IntegerType::Unbounded || rs.iter().any(|r| !r.2 && spec_width(r.0, r.1, false) == got), d);
+    }
 }
